@@ -543,12 +543,15 @@ func c22Oversize(r *vk.Run) {
 	algs := []compression.Algorithm{compression.Algorithm_AlgorithmNone, compression.Algorithm_AlgorithmDeflate}
 	const allocBound = 16 << 20 // far below the smallest rejected size (100 MiB + 1)
 
-	// Control: a prefix of exactly the limit is legal, so the decoder must ask
+	// Control: a prefix below the limit is legal, so the decoder must ask
 	// for the body (the starve sensor fires) and the allocation sensor must
 	// see the buffer. This shows both sensors are alive.
-	ctl := probePrefix(algs[0], protowire.AppendVarint(nil, decoderLimit), rng.Int63(), 3)
-	sensorsAlive := ctl.Starved && ctl.Alloc >= decoderLimit
-	r.Note("oversize_control", map[string]any{"prefix": decoderLimit, "decoder_waited_for_body": ctl.Starved, "allocated_bytes": ctl.Alloc})
+	// (32 MiB rather than the 100 MiB limit itself: under -race an allocation
+	// of 100 MiB costs ten seconds of shadow-memory work.)
+	const controlSize = 32 << 20
+	ctl := probePrefix(algs[0], protowire.AppendVarint(nil, controlSize), rng.Int63(), 3)
+	sensorsAlive := ctl.Starved && ctl.Alloc >= controlSize
+	r.Note("oversize_control", map[string]any{"prefix": controlSize, "decoder_waited_for_body": ctl.Starved, "allocated_bytes": ctl.Alloc})
 	if !sensorsAlive {
 		r.Inconclusive("oversize-control-sensor-not-alive")
 	}
@@ -561,7 +564,7 @@ func c22Oversize(r *vk.Run) {
 			if broken {
 				break // do not feed even larger sizes to a decoder that does not reject
 			}
-			for style := 0; style < fragStyles; style += 2 {
+			for style := 0; style < 2; style++ {
 				fmt.Printf("C22 oversize case: alg=%s prefix=%d style=%d\n", alg, v, style)
 				var o prefixOutcome
 				r.Guard(map[string]any{"alg": alg.String(), "prefix": v}, func() {
@@ -619,7 +622,7 @@ func c22() {
 	// collector run continuously, which under -race on a busy machine costs far
 	// more than the work itself.
 	debug.SetGCPercent(800)
-	n := r.Pick(240, 12000)
+	n := r.Pick(240, 6000)
 	largeEvery := r.Pick(30, 8)
 	seeds := make([]int64, n)
 	rng := r.Rand("cases")
